@@ -77,6 +77,8 @@ def execute(case: dict) -> dict:
                 obs["body"] = await request.read()
             seen.append(obs)
             if request.path.endswith("/second"):
+                if case.get("second_delay"):
+                    await asyncio.sleep(case["second_delay"])  # virtual time: longer than a small keep-alive timeout
                 return web.Response(text="second")
             kind = rs["kind"]
             hdrs = [(k, v) for k, v in rs.get("headers", [])]
@@ -133,7 +135,7 @@ def execute(case: dict) -> dict:
         async def main():
             app = web.Application(client_max_size=1 << 22)
             app.router.add_route("*", "/{tail:.*}", handler)
-            runner = web.AppRunner(app, access_log=None)
+            runner = web.AppRunner(app, access_log=None, **({"keepalive_timeout": case["keepalive_timeout"]} if case.get("keepalive_timeout") else {}))
             await runner.setup()
             server = runner.server
             log: list = []
@@ -422,7 +424,11 @@ def cases(draw):
     if rs["compress"]:
         rq["headers"] = rq["headers"] + [("Accept-Encoding", draw(st.sampled_from(["gzip", "deflate", "gzip, deflate"])))]
     total = rq["size"] + rsize
-    return {"req": rq, "resp": rs, "c2s": draw(plans(total)), "s2c": draw(plans(total))}
+    out = {"req": rq, "resp": rs, "c2s": draw(plans(total)), "s2c": draw(plans(total))}
+    if draw(st.integers(0, 3)) == 0:
+        out["keepalive_timeout"] = draw(st.sampled_from([0.25, 1.0, 30.0]))
+        out["second_delay"] = draw(st.sampled_from([0.1, 0.5, 2.0, 45.0]))
+    return out
 
 
 def unit_hyp(rec: Rec, n: int, offset: int) -> None:
